@@ -73,6 +73,9 @@ site('decl.c', 'decl', 'error', "external declaration must not contain 'register
      T('fdecl', 'register int x_;'))
 site('decl.c', 'decl', 'error', "function '%s' declared with alignment specifier",
      T('decl', '_Alignas(8) int f_(void);', "'f_'"))
+site('decl.c', 'decl', 'error', "function '%s' is defined with incomplete return type",
+     T('fdecl', 'struct u_ f_(void) { }', "'f_'", note='regression (fixed 605d7bd): was accepted and froze an empty aggregate type'),
+     T('fdecl', 'struct v_; struct v_ g_(int a_) { } struct v_ { long a, b; };', "'g_'"), T('fdecl', 'union w_ h_(void) { for (;;) ; }', "'h_'"))
 site('decl.c', 'decl', 'error', "parameter '%s' of function definition has incomplete type",
      T('fdecl', 'int f_(struct u_ p_) { return 0; }', "'p_'"),
      T('fdecl', 'int f_(int a_, struct u_) { return a_; }', "''", gcc=True),
